@@ -13,6 +13,7 @@
 //! canonical reply that the model must reproduce.
 mod common;
 mod c20;
+mod canon;
 mod ueq;
 mod ord;
 mod obj;
@@ -36,6 +37,7 @@ pub fn exec_line(line: &str, out: &mut Out) {
         "obj" => obj::exec(rest, out),
         "ord" => ord::exec(rest, out),
         "ueq" => ueq::exec(rest, out),
+        "canon" => canon::exec(rest, out),
         _ => ("bad-op".to_string(), false),
     }));
     match r {
@@ -87,6 +89,8 @@ fn real_main() {
             "C06" => obj::gen(&mut out, thorough, "C06"),
             "C14" => ord::gen(&mut out, thorough),
             "C15" => ueq::gen(&mut out, thorough),
+            "C09" => canon::gen(&mut out, thorough),
+            "C10" => canon::gen(&mut out, thorough),
             "C04" => print::gen(&mut out, thorough, "C04"),
             "C08" => print::gen(&mut out, thorough, "C08"),
             "C13" => print::gen(&mut out, thorough, "C13"),
